@@ -807,7 +807,8 @@ def u_fq2_inv(ctx, modname):
         path.assume(FAtom(m0.r.n, False), "M irreducible: M(0) = m0 != 0")
         path.prove(f"{name}/ensures.inverse", eqz(Rv * A, fs.K(1)), detail="x * inv(x) = 1 in (Z/p)[W]/(M)")
     ctx.ex.run(body, name)
-    ctx.assume("class invariant: the modulus polynomial is irreducible over Z/p (instantiated as 'no root' for d = 2)")
+    ctx.assume("class invariant (precondition on user instantiations): the modulus polynomial is irreducible over Z/p, instantiated as 'no root' "
+               "for d = 2; for the eight real extension classes it is the closed fact fields.modulus-irreducible (Rabin's test, evaluated on every run)")
 
 
 for _mod, _tag in ((REF, "ref"), (OPT, "opt")):
@@ -1230,7 +1231,9 @@ def u_fqp_inv_euclid(ctx, modname, d, dh):
     if dh == 1:
         lean_cite(ctx, [("Euclid.lean", "inv_exit_ne_zero", "exit of the extended Euclid: low = c with I1, I3, deg high >= 1, M irreducible, M ∤ self ⇒ c ≠ 0"),
                         ("Euclid.lean", "euclid_not_dvd", "a non-zero polynomial of degree < deg M is not divisible by M")])
-        ctx.assume("class invariant: the modulus polynomial is irreducible over Z/p (used only through lean/Euclid.lean at the loop exit)")
+        ctx.assume("class invariant (precondition on user instantiations): the modulus polynomial is irreducible over Z/p, used only through "
+                   "lean/Euclid.lean at the loop exit; for the eight real extension classes it is the closed fact fields.modulus-irreducible "
+                   "(Rabin's test, evaluated on every run)")
 
 
 def u_poly_rounded_div(ctx, modname, d):
